@@ -135,7 +135,11 @@ func (s *SingleTypeSubstitutionMangler[F, T]) subVal(t reflect.Type, mVal reflec
 		if !subPtr {
 			return mVal, false
 		}
-		return nElem.Addr(), true
+		// the converted pointee is a fresh value (a new map, slice or
+		// array), which isn't addressable: give it a home.
+		nPtr := reflect.New(t.Elem())
+		nPtr.Elem().Set(nElem)
+		return nPtr, true
 	case reflect.Map:
 		// we mangled the map type, and the map value we're converting back is non-nil
 		out := reflect.MakeMapWithSize(t, mVal.Len())
